@@ -295,6 +295,11 @@ class Session:
                 r.op(line.strip(), f"ok {fr(reb.profit_on_idle_cash)} {fr(reb.context_pre.nlv)} {fr(reb.context_post.nlv)}", self.tol())
             else:
                 r.op(line.strip(), st)
+            r.op("nrec", str(len(self.broker.track_record)))
+            if st == "ok":
+                tl = sorted((self.sym(tr.contract), fr(tr.quantity), fr(tr.acq_price)) for tr in reb.trades)
+                r.op("lasttrades", ",".join(":".join(x) for x in tl) if tl else "-")
+                o["trade_list"] = [(self.sym(tr.contract), F(tr.quantity), F(tr.acq_price)) for tr in reb.trades]
             o.update(status=st, rebal=dict(t=t, byWeight=bool(bw), absolute=bool(ab), fractional=bool(frac), margin=F(fmg),
                                             target={k: F(v) for k, v in zip(keys, vals)}),
                      trades=executed, nrec_before=n_before, nrec_after=len(self.broker.track_record),
